@@ -19,7 +19,7 @@ import vfutil
 RULE = ('histories of 1..7 requests through a real Router with SignedCookieSessionFactory (options: timeout, '
         'reissue_time, set_on_exception, hashalg, secret, salt, max_age, cookie attributes); each request advances a fake '
         'clock (quarter seconds; advances are aimed at the exact timeout / reissue boundaries of the cookie in the jar), '
-        'presents the latest / no / an older / an edited / a foreign-key / a hand-signed cookie, runs 0..7 session calls '
+        'presents the latest / no / an older / an edited / a foreign-key / a well-signed-but-malformed cookie (shape cube: arity, stamp kinds, state kinds; 15% of the histories run BaseCookieSessionFactory with an unsigned serialiser), runs 0..7 session calls '
         '(each with its own clock advance; explicit defaults of pop/get/setdefault come from the pool of stored values, often the stored value itself) or does not touch the session, and may raise into an exception view.  A history '
         'is non-trivial when some request starts with non-empty data loaded from a cookie set by an earlier request, or '
         'presents a cookie that is expired / refused / edited, or a response callback refuses an oversize cookie; '
@@ -115,18 +115,36 @@ def _tform(n, form):
     return {'int': n, 'float': float(n) + 0.5, 'str': str(n)}[form]     # int() of all three is n
 
 
+class PlainSerializer:
+    """a transparent (unsigned) serialiser for BaseCookieSessionFactory: base64url(json) without padding; ValueError on
+    anything malformed — the same wire format as SignedSerializer with a digest of 0 bytes"""
+    salted_secret = None
+
+    def dumps(self, appstruct):
+        return base64.urlsafe_b64encode(json.dumps(appstruct).encode('utf-8')).rstrip(b'=')
+
+    def loads(self, bstruct):
+        try:
+            raw = base64.urlsafe_b64decode(bstruct + b'=' * (-len(bstruct) % 4))
+            return json.loads(raw.decode('utf-8'))
+        except (binascii.Error, TypeError, ValueError) as e:
+            raise ValueError(str(e))
+
+
 def get_app(opts):
     key = json.dumps(opts, sort_keys=True)
     if key in _APPS:
         return _APPS[key]
     from pyramid.config import Configurator
     from pyramid.response import Response
-    from pyramid.session import SignedCookieSessionFactory
-    factory = SignedCookieSessionFactory(
-        opts['secret'], cookie_name=opts['name'], max_age=opts['max_age'], path=opts['path'], domain=opts['domain'],
-        secure=opts['secure'], httponly=opts['httponly'], samesite=opts['samesite'], set_on_exception=opts['soe'],
-        timeout=_tform(opts['timeout'], opts['tform']), reissue_time=_tform(opts['reissue'], opts['tform']),
-        hashalg=opts['hashalg'], salt=opts['salt'])
+    from pyramid.session import SignedCookieSessionFactory, BaseCookieSessionFactory
+    common = dict(cookie_name=opts['name'], max_age=opts['max_age'], path=opts['path'], domain=opts['domain'],
+                  secure=opts['secure'], httponly=opts['httponly'], samesite=opts['samesite'], set_on_exception=opts['soe'],
+                  timeout=_tform(opts['timeout'], opts['tform']), reissue_time=_tform(opts['reissue'], opts['tform']))
+    if opts.get('unsigned'):
+        factory = BaseCookieSessionFactory(PlainSerializer(), **common)
+    else:
+        factory = SignedCookieSessionFactory(opts['secret'], hashalg=opts['hashalg'], salt=opts['salt'], **common)
 
     def view(request):
         sc, obs = HOLD['req'], HOLD['obs']
@@ -290,6 +308,8 @@ def apply_edit(base, e, dsize):
     f = fstruct_of(base)
     if f is None or len(f) <= dsize:
         return base + 'x'
+    if k == 'sig' and dsize == 0:
+        k, e = 'payload', ['payload', e[1], 49]
     if k == 'payload':
         i = dsize + e[1] % (len(f) - dsize)
         return b64(f[:i] + bytes([e[2] % 256]) + f[i + 1:])
@@ -317,10 +337,75 @@ def classify_wire(value):
     except (TypeError, ValueError):
         return 'nt'
     try:
-        st = enc_data(dict(s))
+        d = dict(s)
     except (TypeError, ValueError):
-        st = 'nodict'
+        d = None
+    st = 'nodict' if d is None else enc_data(d)       # enc_data raises on values outside the protocol's domain
     return [classify_fld(r), classify_fld(c), st]
+
+
+def py_to_wire(value):
+    """mirror of JV.toWire (lean/PyramidModel/Session.lean) with digitStrNum — used only to decide whether the raw value can be
+    handed to the model (it can when this agrees with classify_wire, Python's own reading)"""
+    if isinstance(value, list) and len(value) == 3:
+        a, b, c = value
+    elif isinstance(value, dict) and len(value) == 3:
+        a, b, c = list(value)
+    elif isinstance(value, str) and len(value) == 3:
+        a, b, c = value
+    else:
+        return 'nt'
+
+    def fld(x):
+        if isinstance(x, bool):
+            return 4 if x else 0
+        if isinstance(x, int):
+            return 4 * max(x, 0)
+        if isinstance(x, str) and x and all('0' <= ch <= '9' for ch in x):
+            return 4 * int(x)
+        return 'bad'
+
+    def state(x):
+        if isinstance(x, dict):
+            return enc_data(x)
+        if isinstance(x, list):
+            d = {}
+            for it in x:
+                if not (isinstance(it, list) and len(it) == 2 and isinstance(it[0], str)):
+                    return 'nodict'
+                d[it[0]] = it[1]
+            return enc_data(d)
+        if isinstance(x, str) and x == '':
+            return []
+        return 'nodict'
+    return [fld(a), fld(b), state(c)]
+
+
+def model_wire(value):
+    json.dumps(value, ensure_ascii=False).encode('utf-8')      # lone surrogates (an edit can split an escaped pair) are outside Text
+    w = classify_wire(value)
+    try:
+        if py_to_wire(value) == w:
+            return ['raw', enc(value)], w
+    except Exception:       # noqa
+        pass
+    return ['wire', w], w
+
+
+def well_formed_payload(value):
+    """the statement's well-formed payload: three fields, two stamps `float()` accepts, a mapping"""
+    if not (isinstance(value, (list, str, dict)) and len(value) == 3):
+        return False
+    a, b, c = list(value)
+    return classify_fld(a) != 'bad' and classify_fld(b) != 'bad' and isinstance(c, dict)
+
+
+def non_mapping_state(value):
+    """F-C10c class: three fields, stamps `float()` accepts, state NOT a mapping"""
+    if not (isinstance(value, (list, str, dict)) and len(value) == 3):
+        return False
+    a, b, c = list(value)
+    return classify_fld(a) != 'bad' and classify_fld(b) != 'bad' and not isinstance(c, dict)
 
 
 def parse_set_cookie(resp, name):
@@ -360,8 +445,9 @@ class Runner:
     def __init__(self, opts, clock0):
         self.opts, self.clock0 = opts, clock0
         self.app = get_app(opts)
-        self.dsize = digest_size(opts['hashalg'])
-        self.ser = real_serializer(opts['secret'], opts['salt'], opts['hashalg'])
+        self.unsigned = bool(opts.get('unsigned'))
+        self.dsize = 0 if self.unsigned else digest_size(opts['hashalg'])
+        self.ser = PlainSerializer() if self.unsigned else real_serializer(opts['secret'], opts['salt'], opts['hashalg'])
         self.clock = clock0
         self.issued = []          # newest first: dicts {text, fstruct, payload(model form), meta}
         self.trace = []
@@ -387,6 +473,8 @@ class Runner:
             return p[1], None, {'kind': 'edit', 'orig': latest}
         if p[0] == 'edit':
             return apply_edit(latest and latest['text'], p[1], self.dsize), None, {'kind': 'edit', 'orig': latest}
+        if p[0] == 'otherkey' and self.unsigned:
+            return (latest['text'] if latest else None), 'latest', {'kind': 'latest', 'meta': latest and latest['meta']}
         if p[0] == 'otherkey':
             k = p[1]
             if latest:
@@ -409,7 +497,8 @@ class Runner:
         if p[0] == 'wire':
             value = dec(p[1])
             text = self.ser.dumps(value).decode('ascii')
-            return text, ['wire', classify_wire(value)], {'kind': 'wire', 'meta': None}
+            mp, w = model_wire(value)
+            return text, mp, {'kind': 'wire', 'meta': None, 'value': value, 'w': w}
         raise ValueError('bad present %r' % (p,))
 
     def step(self, req):
@@ -429,7 +518,7 @@ class Runner:
             orig = info.get('orig')
             if info['kind'] == 'otherkey' and info['same_key'] and seen == text:
                 info['cls'] = 'samekey'
-                mpres = ['wire', classify_wire(info['value'])]
+                mpres, info['w'] = model_wire(info['value'])
             elif seen is None:
                 info['cls'] = 'unseen'; mpres = 'absent'
             elif orig is not None and seen == orig['text']:
@@ -444,6 +533,24 @@ class Runner:
                     older = [i for i, c in enumerate(self.issued) if c['fstruct'] == f]
                     if older:
                         info['cls'] = 'replay'; mpres = ['issued', older[0]]
+                    elif self.unsigned:
+                        # nothing verifies an unsigned cookie: what the serialiser makes of the edited text decides
+                        try:
+                            value = self.ser.loads(seen.encode('latin-1'))
+                        except (ValueError, UnicodeEncodeError):
+                            value = _Ser_BAD = None
+                            info['cls'] = 'undecodable'; mpres = 'reject'
+                        else:
+                            try:
+                                mpres, info['w'] = model_wire(value)
+                                info.update(kind='wire', cls='unsigned-edit', value=value, meta=None)
+                            except Exception:       # noqa  (a value outside the protocol's domain, e.g. a float inside the state)
+                                if orig is not None:
+                                    r.environ['HTTP_COOKIE'] = (name + '=' + orig['text'])
+                                    info['cls'] = 'noop'; mpres = 'latest'
+                                else:
+                                    r.environ.pop('HTTP_COOKIE', None)
+                                    info['cls'] = 'unseen'; mpres = 'absent'
                     else:
                         info['cls'] = 'differ'; mpres = 'reject'
         obs = {'touched': False, 'loadRaised': None, 'start': None, 'results': [], 'times': [], 'end': None,
@@ -577,15 +684,30 @@ def judge(case, rn):
             bad(i, 'unexpected outcome %r' % (obs['outcome'],), 'a response')
             prev = None
             continue
+        wire_meta = None
         if kind == 'wire' or (kind == 'otherkey' and info.get('cls') == 'samekey' and not info['differs']):
-            # hand-signed values are outside the statement, except that construction must fall back to an empty state on
-            # every failure to unpack / convert (anchors.mechanism); a third component that is not a mapping is excluded
-            mp = rn.mreqs[i]['present']
-            w = mp[1] if isinstance(mp, list) and mp[0] == 'wire' else None
-            if obs['loadRaised'] and w is not None and (w == 'nt' or w[2] != 'nodict' or 'bad' in w[:2]):
-                bad(i, 'request.session raised %s on a verified value that merely fails to unpack/convert (%s)' % (obs['loadRaised'], json.dumps(w)[:60]), 'falls back to an empty state')
-            prev = None
-            continue
+            # a value that DESERIALISES (signed by the real serialiser, or read by an unsigned one).  The statement: anything
+            # that is not a well-formed (stamp, stamp, mapping) payload yields a NEW EMPTY session — no key of its state visible —
+            # and never an exception; a well-formed one is loaded exactly (subject to the timeout).
+            value = info['value']
+            now = obs['load_clock']
+            if well_formed_payload(value):
+                a, b, c = list(value)
+                wire_meta = {'end_data': enc_data(c), 'created': classify_fld(b), 'stamp': classify_fld(a)}
+            else:
+                finding = 'F-C10c' if non_mapping_state(value) else None
+                st = obs['start']
+                if obs['loadRaised']:
+                    bad(i, 'request.session raised %s on the deserialised value %s' % (obs['loadRaised'], json.dumps(value)[:80]),
+                        'a new empty session, no exception', finding)
+                    prev = None
+                    continue
+                if not (st['new'] and st['data'] == [] and st['created'] == now):
+                    bad(i, 'the malformed deserialised value %s gave a session with new=%s data=%s created=%s' % (json.dumps(value)[:80], st['new'], json.dumps(st['data'])[:80], st['created']),
+                        {'new': True, 'data': [], 'created': now}, finding)
+                    prev = None
+                    continue
+                kind = 'absent'          # from here on it is judged like a request without a cookie
         now = obs['load_clock']
         if obs['loadRaised']:
             bad(i, 'request.session raised %s' % obs['loadRaised'], 'never raises')
@@ -593,7 +715,9 @@ def judge(case, rn):
             continue
         st = obs['start']
         # which abstract session does the statement say this request continues?
-        if kind in ('latest', 'issued'):
+        if wire_meta is not None:
+            meta = wire_meta
+        elif kind in ('latest', 'issued'):
             meta = info['meta']
         elif kind == 'absent':
             meta = None
@@ -753,7 +877,7 @@ def gen_opts(rng):
             'max_age': rng.choice([None, None, 0, 100, '50']), 'name': rng.choice(['session', 'session', 'sid']),
             'tform': rng.choice(['int', 'int', 'float', 'str']), 'secure': rng.random() < 0.3, 'httponly': rng.random() < 0.3,
             'samesite': rng.choice(['Lax', 'Lax', 'Strict', None]), 'path': rng.choice(['/', '/', '/app']),
-            'domain': rng.choice([None, None, 'example.com'])}
+            'domain': rng.choice([None, None, 'example.com']), 'unsigned': rng.random() < 0.15}
 
 
 def pick_val(rng):
@@ -823,17 +947,30 @@ def gen_edit(rng):
     return ['garbage', rng.choice(['', 'abc', '!!!!', 'é', '€', '=', 'A' * 200, 'e30', 'bnVsbA'])]
 
 
-WIRES = [None, 0, 'abc', '123', [], [1, 2], [1, 2, 3, 4], {'a': 1, 'b': 2, 'c': 3}, {'1': 0, '2': 0, '3': 0},
-         [None, 1, {}], [1, None, {}], ['x', 1, {}], [1, 'x', {'a': 1}], [[], 1, {}], [1, {}, {}], ['12', '8', {'a': 1}], [True, False, {'t': 1}],
-         [1, 1, 3], [1, 1, None], [1, 1, 'xy'], [1, 1, [1]], [1, 1, []], [1, 1, [['a', 1]]], [10 ** 6, 1, 5], [0, 0, {'old': 1}]]
+# deserialised values: the shape cube (arity 0-5; each stamp a number / numeric string / word / null / bool / list / dict /
+# nested; the state an empty or non-empty dict / list / list of pairs / string / null / number)
+W_STAMPS = [0, 5, 1200, '7', '12', 'x', '', None, True, False, [], [1], {'a': 1}, {}, [[2]]]
+W_STATES = [{}, {'k': 1}, {'uid': 'admin', '_csrft_': 'tok', '_f_': ['m']}, {'n': {'d': [1, {'e': None}]}}, [], [['k', 1]], [['k', 1], ['k', 2], ['j', None]],
+            [1], 'ab', 'xyz', '', None, 3, True]
+W_OTHERS = [None, 0, 7, True, 'abc', '123', '12', '', [], [1], [1, 2], [1, 2, {'k': 1}, 4], [1, 2, {'k': 1}, 4, 5], {}, {'a': 1},
+            {'a': 1, 'b': 2, 'c': 3}, {'1': 0, '2': 0, '3': 0}, {'1': 0, '2': 0, '': 0}, [[1, 2, {'k': 1}]], [None, None, None]]
 
 
 def gen_wire(rng, clock):
-    w = rng.choice(WIRES)
-    if rng.random() < 0.35:
-        w = [clock // 4 - rng.choice([0, 1, 2, 5]), rng.choice([clock // 4, 7, '9']), rng.choice([{'w': 1}, {'w': [1]}, 3, None, 'ab', [1], {}])]
-        if w[0] < 0: w[0] = 0
-    return w
+    r = rng.random()
+    sec = clock // 4
+    if r < 0.15:
+        return rng.choice(W_OTHERS)
+    if r < 0.45:
+        # well-formed, stamped around the clock (so that the timeout matters)
+        return [max(0, sec - rng.choice([0, 1, 2, 3, 5, 10, 11, 1200])), rng.choice([sec, 7, '9', True]), rng.choice(W_STATES[:4])]
+    if r < 0.75:
+        # exactly one thing wrong
+        v = [max(0, sec - rng.choice([0, 1, 5])), rng.choice([sec, 7]), rng.choice(W_STATES[1:4])]
+        k = rng.randrange(3)
+        v[k] = rng.choice(['x', '', None, [], [1], {'a': 1}, {}]) if k < 2 else rng.choice(W_STATES[4:])
+        return v
+    return [rng.choice(W_STAMPS), rng.choice(W_STAMPS), rng.choice(W_STATES)]
 
 
 def gen_req(rng, rn, st):
@@ -861,7 +998,7 @@ def gen_req(rng, rn, st):
         present = ['issued', rng.randrange(3)]
     elif r < 0.88:
         present = ['edit', gen_edit(rng)]
-    elif r < 0.94:
+    elif r < 0.92:
         if rng.random() < 0.15:
             # same salted secret split at another place (F-C10b class)
             whole = (o['salt'] or '') + o['secret']
@@ -933,7 +1070,7 @@ def well_formed(case):
         if not (o['name'] in ('session', 'sid') and o['tform'] in ('int', 'float', 'str') and o['samesite'] in ('Lax', 'Strict', None)
                 and o['path'] in ('/', '/app') and o['domain'] in (None, 'example.com') and o['max_age'] in (None, 0, 100, '50')
                 and isinstance(o['secret'], str) and o['secret'] and isinstance(o['salt'], str)
-                and all(isinstance(o[k], bool) for k in ('soe', 'secure', 'httponly'))
+                and all(isinstance(o[k], bool) for k in ('soe', 'secure', 'httponly')) and isinstance(o.get('unsigned', False), bool)
                 and all(o[k] is None or (isinstance(o[k], int) and not isinstance(o[k], bool) and 0 <= o[k] < 10 ** 6) for k in ('timeout', 'reissue'))):
             return False
         if not (isinstance(case['clock0'], int) and case['clock0'] >= 0 and isinstance(case['reqs'], list)):
@@ -978,7 +1115,7 @@ def fails_unknown(case):
         return False
 
 
-KNOWN = {'F-C10a', 'F-C10b'}
+KNOWN = {'F-C10a', 'F-C10b', 'F-C10c'}
 
 
 def shrink_case(case, pred):
@@ -1082,7 +1219,7 @@ def excluded_points():
 
 def run(ctx):
     rng = ctx.rng
-    n = ctx.n(1500, 30000)
+    n = ctx.n(1500, 25000)
     st = {'poisoned': set(), 'aimed_timeout': 0, 'aimed_reissue': 0, 'aimed_size': 0}
     items = []      # (case, runner)
     ncorpus = 0
@@ -1092,6 +1229,8 @@ def run(ctx):
     for c in scope_cases(ctx.n(1, 2)):
         items.append((c, run_case(c))); ncorpus += 1
     for c in default_scope(ctx.n(1, 2)):
+        items.append((c, run_case(c))); ncorpus += 1
+    for c in shape_scope(ctx.tier != 'quick'):
         items.append((c, run_case(c))); ncorpus += 1
     t_gen = 0
     for _ in range(n):
@@ -1105,7 +1244,7 @@ def run(ctx):
             'requests_per_history': {}, 'loaded_nonempty': 0, 'at_timeout_exactly': 0, 'one_quarter_past_timeout': 0, 'expired': 0,
             'cookie_exactly_at_limit': 0, 'refused_just_above_limit': 0, 'at_reissue_exactly': 0, 'just_past_reissue': 0,
             'aimed': {k: st.get(k, 0) for k in ('aimed_timeout', 'aimed_reissue', 'aimed_size', 'single_modifier')}, 'known': {}, 'hashalg': {},
-            'spec_compared': 0, 'pop_default_equals_stored': 0, 'pop_default_equals_stored_only_modifier_no_reissue': 0, 'reissue_option': {}}
+            'spec_compared': 0, 'wire': {}, 'unsigned_histories': 0, 'pop_default_equals_stored': 0, 'pop_default_equals_stored_only_modifier_no_reissue': 0, 'reissue_option': {}}
     for (case, rn), mo in zip(items, model):
         vs = judge(case, rn)
         viol.extend(vs)
@@ -1118,6 +1257,12 @@ def run(ctx):
         vfutil.bump(dist['requests_per_history'], len(case['reqs']))
         vfutil.bump(dist['hashalg'], case['opts']['hashalg'])
         vfutil.bump(dist['reissue_option'], str(case['opts']['reissue']))
+        if case['opts'].get('unsigned'): dist['unsigned_histories'] += 1
+        for inf, mreq in zip(rn.info, rn.mreqs):
+            if inf['kind'] == 'wire' and 'value' in inf:
+                v = inf['value']
+                vfutil.bump(dist['wire'], ('well-formed' if well_formed_payload(v) else 'non-mapping-state' if non_mapping_state(v) else 'bad-stamp'
+                                           if isinstance(v, (list, str, dict)) and len(v) == 3 else 'not-a-triple') + (':raw' if mreq['present'][0] == 'raw' else ':classified'))
         for req, obs in zip(case['reqs'], rn.trace):
             if req['ops'] and obs['start'] is not None:
                 cur = {k: v for k, v in obs['start']['data']}
@@ -1243,6 +1388,19 @@ def default_scope(depth):
                                 {'dq': 5, 'present': 'latest', 'ops': [[0, ['items']]], 'raised': False}]}
 
 
+def shape_scope(full):
+    """the payload-shape cube through the real application: one request presenting the deserialisable value (signed with the
+    real key, and under an unsigned BaseCookieSessionFactory), reading the session; with and without an expired timeout"""
+    stamps = W_STAMPS if full else [5, '7', 'x', None, True, [], {'a': 1}]
+    states = W_STATES if full else [{}, {'k': 1}, [], [['k', 1]], 'ab', '', None, 3]
+    values = [[a, b, c] for a in stamps for b in stamps for c in states] + W_OTHERS
+    for unsigned in (False, True):
+        for T in ((None, 10) if full else (None,)):
+            for v in values:
+                yield {'opts': base_opts(timeout=T, reissue=None, unsigned=unsigned), 'clock0': 4000,
+                       'reqs': [{'dq': 0, 'present': ['wire', enc(v)], 'ops': [[0, ['items']], [0, ['len']]], 'raised': False}]}
+
+
 def edit_scope():
     """every single-character substitution / deletion / insertion and every short append of one valid cookie"""
     base = [{'dq': 0, 'present': 'latest', 'ops': [[0, ['set', 'a', 1]], [0, ['flash', 'm', '', True]]], 'raised': False}]
@@ -1282,7 +1440,7 @@ def search(ctx):
         return False
 
     exhaustive = True
-    for c in itertools.chain(default_scope(3), scope_cases(2)):
+    for c in itertools.chain(shape_scope(True), default_scope(3), scope_cases(2)):
         consider(c)
         if len(viol) >= 3 or ctx.time_left() < 60:
             exhaustive = False
@@ -1314,7 +1472,7 @@ def search(ctx):
         if sv:
             viol = [sv[0]] + viol
     return {'violations': viol[:5], 'searched': searched, 'exhaustive': exhaustive and not viol,
-            'scope': 'stored value x default over the same 8-value pool: all sequences <= 2 (and pop/get/setdefault sequences of 3) of 27 calls in the middle of 3 requests, no reissue; all sequences of <= 2 of %d calls x 3 clock advances around timeout/reissue; option cube; every single-character edit of one cookie; 20000 random histories' % len(SCOPE_OPS)}
+            'scope': 'payload-shape cube (15 stamp kinds ^2 x 14 state kinds + 20 other arities/kinds, signed and unsigned, with and without expiry); stored value x default over the same 8-value pool: all sequences <= 2 (and pop/get/setdefault sequences of 3) of 27 calls in the middle of 3 requests, no reissue; all sequences of <= 2 of %d calls x 3 clock advances around timeout/reissue; option cube; every single-character edit of one cookie; 20000 random histories' % len(SCOPE_OPS)}
 
 
 def replay(ctx, rep):
